@@ -13,6 +13,8 @@ from fxv.ch.c07_model import NK, NS, compatible, fixpoint_impl  # noqa: E402
 MAXLEN = int(os.environ.get('C07_MAXLEN', '3'))
 FIRST = int(os.environ.get('C07_FIRST', '-1'))
 NCODES = NK + 2 * NS
+MINLEN = int(os.environ.get('C07_MINLEN', '2'))
+ALLOWED = [int(c) for c in os.environ.get('C07_ALLOWED', '').split(',') if c]
 
 
 def first_ok(codes):
@@ -20,6 +22,8 @@ def first_ok(codes):
 
 
 def in_range(codes):
+    if ALLOWED:
+        return all(c in ALLOWED for c in codes)
     return all(0 <= c < NCODES for c in codes)
 
 
@@ -29,7 +33,7 @@ def small(values):
 
 def _normal_form(codes: List[int], values: List[int]) -> bool:
     """
-    pre: 2 <= len(codes) <= MAXLEN
+    pre: MINLEN <= len(codes) <= MAXLEN
     pre: len(values) == len(codes)
     pre: in_range(codes)
     pre: first_ok(codes)
